@@ -10,5 +10,5 @@ mkdir -p build evidence replays
 ( cd coq && coq_makefile -f _CoqProject -o Makefile >/dev/null && timeout 3000 make -j16 2>&1 | tail -40; exit ${PIPESTATUS[0]} )
 cp coq/model.ml coq/model.mli build/
 cp ocaml/driver.ml build/
-( cd build && timeout 600 ocamlfind ocamlopt -O3 -w -a model.mli model.ml driver.ml -o driver 2>/dev/null || timeout 600 ocamlfind ocamlopt -w -a model.mli model.ml driver.ml -o driver )
+( cd build && timeout 600 ocamlfind ocamlopt -package unix -linkpkg -O3 -w -a model.mli model.ml driver.ml -o driver 2>/dev/null || timeout 600 ocamlfind ocamlopt -package unix -linkpkg -w -a model.mli model.ml driver.ml -o driver )
 echo "setup ok"
